@@ -23,7 +23,7 @@ TRUSTED = ["hand model H5.Model.BufferedStream of BufferedStream (tell/seek/read
            "number of characters in the class (class extracted exactly: H5.Gen.Stream.invalidUnicode)",
            "CPython UCS4 build with lone surrogates (characterErrorsUCS4); the UCS2 branch is not modelled",
            "the tokenizer/tree builder above the stream are exercised by the oracle only (real code), not modelled here"]
-RULE = ("stream: ALL segmentations of ALL strings of length <= 4 (quick) / 5 (thorough) over {a, CR, LF, U+D800, U+DC00, "
+RULE = ("regressions: witnesses of the repaired findings (must pass); stream: ALL segmentations of ALL strings of length <= 4 (quick) / 5 (thorough) over {a, CR, LF, U+D800, U+DC00, "
         "U+0001} x (drain script + seeded random call scripts over char/unget/position/charsUntil) on a short-read "
         "source object; exhaustive call scripts of length <= 3/4 on short strings; StringIO with _defaultChunkSize "
         "1..8; random segmentations of longer soup.  Oracle: html5lib parse of the same text as str / StringIO / "
@@ -515,26 +515,63 @@ def first_probe(text, d):
     return b, b[:n]
 
 
+def stream_chars(text, d):
+    """all characters the real input stream delivers for this delivery (None when it cannot be built / raises)"""
+    from html5lib import _inputstream as I
+    so = source_of(text, d)
+    if so is None:
+        return None
+    old = I.HTMLUnicodeInputStream._defaultChunkSize
+    if d.get("chunk") is not None:
+        I.HTMLUnicodeInputStream._defaultChunkSize = d["chunk"]
+    try:
+        st = I.HTMLInputStream(so[0], **so[1])
+        out = []
+        while True:
+            c = st.char()
+            if c is None:
+                return "".join(out)
+            out.append(c)
+    except Exception:
+        return None
+    finally:
+        I.HTMLUnicodeInputStream._defaultChunkSize = old
+
+
+def sniffed_encoding(text, d):
+    """the encoding the real HTMLBinaryInputStream settles on for this byte delivery (None when it raises)"""
+    from html5lib._inputstream import HTMLBinaryInputStream
+    so = source_of(text, d)
+    try:
+        return HTMLBinaryInputStream(so[0], **so[1]).charEncoding[0].name
+    except Exception:
+        return None
+
+
 def classify(text, d, tb, base, got):
     if d["kind"] in ("bytes", "BytesIO", "nonseekable"):
         b, probe = first_probe(text, d)
         bom = BOMS[d["enc"]] if d.get("bom") else b""
-        if bom and len(probe) < len(bom):
-            # detectBOM assumes rawStream.read(4) returns 4 bytes when available
-            return "short-byte-read:bom-not-detected"
-        if bom and len(bom) == 2 and probe == bom:
-            # a 2-byte probe equal to a UTF-16 BOM matches at the 'UTF-32' step (bomDict.get(string)): seek = 4
-            if got[0] == "EXC" and got[1] == "AssertionError" and d["kind"] == "nonseekable":
-                return "nonseekable:seek-past-buffer-after-2-byte-bom-probe"
-        if d.get("bom") and d["enc"] == "utf-16le" and probe == b"\xff\xfe\x00\x00":
-            return "bom-utf16le-then-nul-taken-as-utf32le"
+        if bom and len(bom) == 2 and probe == bom and got[0] == "EXC" and got[1] == "AssertionError" \
+                and d["kind"] == "nonseekable":
+            # a probe that is just a UTF-16 BOM: the seek past it must not leave the buffered bytes
+            return "nonseekable:seek-past-buffer-after-2-byte-bom-probe"
+        if bom and sniffed_encoding(text, d) != d["enc"]:
+            # the BOM did not decide the encoding: why?
+            if len(probe) < len(bom):
+                # detectBOM assumes rawStream.read(4) returns 4 bytes when available
+                return "short-byte-read:bom-not-detected"
+            if d["enc"] == "utf-16le" and probe == b"\xff\xfe\x00\x00":
+                return "bom-utf16le-then-nul-taken-as-utf32le"
+            return "bom-not-honoured:%s" % d["enc"]
     if got[0] == "EXC":
         return "delivery-raises:%s:%s" % (d["kind"], got[1])
-    if "\r\n" in text and has_lone_cr_read(text, d):
-        # confirm: the same delivery of the text with CR LF -> LF agrees with its own baseline
-        t2 = text.replace("\r\n", "\n")
-        if differs(t2, d, tb) is None:
+    chars = stream_chars(text, d)
+    if chars is not None and chars != stream_chars(text, {"kind": "str"}):
+        # the character level already differs: the stream itself delivers other characters
+        if "\r\n" in text and has_lone_cr_read(text, d):
             return "lone-cr-read-then-lf"
+        return "stream-characters-differ:%s" % d["kind"]
     if base[0] != got[0]:
         return "tree-differs:%s" % d["kind"]
     eb, eg = base[1], got[1]
@@ -631,7 +668,93 @@ def witness_case(ctx, w):
     oracle_one(ctx, w["text"], w["delivery"], w.get("treebuilder", "etree"), "witness")
 
 
+# witnesses of repaired defects (known_findings.json "fixed"): replayed on every run and EXPECTED TO PASS; if one of
+# the defects returns, its class is no longer a known finding and the check reports a VIOLATION with this input
+REGRESSIONS = [
+    {
+        "text": "<p>a\r\nb",
+        "delivery": {
+            "kind": "str",
+            "chunk": 1
+        },
+        "treebuilder": "etree"
+    },
+    {
+        "text": "",
+        "delivery": {
+            "kind": "nonseekable",
+            "enc": "utf-16le",
+            "bom": True,
+            "sizes": None
+        },
+        "treebuilder": "etree"
+    },
+    {
+        "text": "\u0000",
+        "delivery": {
+            "kind": "bytes",
+            "enc": "utf-16le",
+            "bom": True
+        },
+        "treebuilder": "etree"
+    },
+    {
+        "text": "a\r\nb\r\n\r\n",
+        "delivery": {
+            "kind": "short-text",
+            "sizes": [
+                1
+            ]
+        }
+    },
+    {
+        "text": "\r\n",
+        "delivery": {
+            "kind": "StringIO",
+            "chunk": 1
+        }
+    },
+    {
+        "text": "x>\r\n",
+        "delivery": {
+            "kind": "nonseekable",
+            "enc": "shift_jis",
+            "bom": False,
+            "sizes": [
+                1
+            ]
+        }
+    },
+    {
+        "text": "",
+        "delivery": {
+            "kind": "nonseekable",
+            "enc": "utf-16be",
+            "bom": True,
+            "sizes": [
+                2,
+                3
+            ]
+        }
+    },
+    {
+        "text": "\u0000a",
+        "delivery": {
+            "kind": "BytesIO",
+            "enc": "utf-16le",
+            "bom": True
+        }
+    }
+]
+
+
+def regressions(ctx):
+    for w in REGRESSIONS:
+        oracle_one(ctx, w["text"], w["delivery"], w.get("treebuilder", "etree"), "regression")
+
+
 def run(ctx):
+    regressions(ctx)
     correspondence(ctx)
     oracle(ctx)
 
